@@ -50,7 +50,7 @@ func exploreMain() {
 	}
 	maxLen := 3
 	fmt.Sscan(os.Getenv("C17_LEN"), &maxLen)
-	a := alphabetFor(bi[pl], false, os.Getenv("C17_FULL") != "")
+	a := alphabetFor(bi[pl], false, os.Getenv("C17_FULL") != "", 2, 0)
 	hist := map[string]int{}
 	examples := map[string][]string{}
 	level := []Input{{Pipeline: pl, Steps: bi[pl]}}
@@ -92,7 +92,7 @@ func exploreMain() {
 				live[e.Name] = true
 				order = append(order, e.Name)
 			}
-			for _, s := range stepsFrom(a, r.used, live, order) {
+			for _, s := range stepsFrom(a, n, r.used, live, order) {
 				next = append(next, Input{Pipeline: pl, Steps: append(append([]Step{}, in.Steps...), s)})
 			}
 		}
@@ -259,6 +259,14 @@ func parentMain() {
 		add("corpus", readCase(f))
 	}
 	generate(a, bi, base, add)
+	if os.Getenv("C17_COUNT") != "" {
+		cnt := map[string]int{}
+		for _, t := range todo {
+			cnt[t.in.Pipeline+"/"+t.kind]++
+		}
+		fmt.Println(len(todo), cnt)
+		return
+	}
 	finish()
 	out.Extra["rule"] = rule
 	out.Extra["builtins_read_from_callbacks_go"] = bi
